@@ -276,19 +276,20 @@ Theorem C14_condition_queues_reachable :
 Proof. exact reach_cond_queues. Qed.
 Print Assumptions C14_condition_queues_reachable.
 
-(* Lock held on every exit, from reachability.  s: any state reachable without eager starts;
-   t: a task suspended (TSusp) with a stack of the wait() family for condition c; Task.__step
-   resumes it in [step_entry s t] with the awaited future's result (exc = None, the future
-   holds a result) or throws exc (a CancelledError subclass while in the retry loop, anything
-   while in `await fut`).  Discharged from the invariants: the C13 invariant, stack_wf, the
-   existence of the lock while in the retry loop, and that a PriorityTask at the `await fut`
-   point is not registered as waiting.  Remaining hypothesis: at the `await fut` point the
-   condition's lock index is in range (true when wait() was entered, not part of an invariant). *)
+(* Lock held on every exit, from reachability alone.  s: any state reachable without eager
+   starts; t: a task suspended (TSusp) with a stack of the wait() family for condition c;
+   Task.__step resumes it in [step_entry s t] with the awaited future's result (exc = None, the
+   future holds a result) or throws exc (a CancelledError subclass while in the retry loop,
+   anything while in `await fut`).  All state preconditions of C14_lock_on_exit are discharged
+   from the invariants: the C13 invariant (lock soundness, a woken waiter finds the lock
+   without owner), stack_wf, the existence of the condition's lock, and that a PriorityTask at
+   the `await fut` point is not registered as waiting (false with eager starts).  What remains
+   are the assumptions on the input only.  The reply is the last exception delivered. *)
 Theorem C14_lock_on_exit_reachable :
   forall (s : st) (t c : nat) (frs : list frame) (k : reply -> coro) (exc : option exn) (s' : st) (r : lres),
     reachable_ne s -> tcont_ (gett s t) = TSusp frs k ->
     let l := clock (getc s c) in
-    wait_stack c l frs -> (at_wait_point frs = true -> l < length (locks s)) ->
+    wait_stack c l frs ->
     match exc with
     | None => exists f rest v, frs = InFut f :: rest /\ fstate_ (getf s f) = FResult v
     | Some e => is_cancel e = true \/ at_wait_point frs = true
